@@ -1,34 +1,52 @@
-import Sop.Lemmas.BTree
+import Sop.Lemmas.BTreeRun2
+import Sop.Lemmas.BTreeRemove9
 /-!
 # C17 — a B-tree store behaves as a correctly ordered collection
 
-Model B (`Sop/Model/BTree.lean`) is a structural transcription of `/repo/btree`. What is PROVED here
-(for every tree, every slot length, unique and duplicate stores, balancing on or off):
+Model B (`Sop/Model/BTree.lean`) is a structural transcription of `/repo/btree`. PROVED here, for every tree,
+every slot length, unique and duplicate stores, with leaf load balancing OFF and the three proposed repairs on:
 
-* `checkWF_sound` — the executable checker decides the Prop-level well-formedness `WF`;
-* `C17_scan_sorted` — READ SIDE: on every well-formed tree the in-order contents are key-sorted,
-  contain only live items, and `Count` is their number;
-* spec-level lemmas (`spec_insert_sorted`, `spec_insert_perm`, `spec_erase_sorted`);
-* `C17_refines_partial` — along any operation sequence on which the checker accepts every visited
-  state, every visited state is `WF` and scans sorted.  The hypothesis stands for the UPDATE-SIDE
-  preservation lemmas that are NOT proved (`Statement_C17` is the full-strength statement); the driver
-  evaluates exactly this hypothesis (`checkWF`) and the specification relation `Spec.accepts` after
-  every step of every explored sequence — exploration, not proof;
-* `C17_lb_counterexample` — with leaf load balancing ON the full-strength statement is FALSE for the
-  code as it is (open finding C17-F1);
-* `C17_stale_cursor_counterexample` / `C17_stale_cursor_repaired` — the pinned tree's `Find` fast path
-  trusts a cursor whose cached item pointer sees a vacated slot; the proposed repair removes it.
+* `checkWF_sound`, `C17_scan_sorted` — the executable checker decides the Prop-level well-formedness `WF`; a
+  well-formed tree scans in key order over live items and `Count` is their number;
+* `C17_inv` (= `Statement_C17_inv`, the full-strength statement with its side conditions explicit) — ONE CALL:
+  from a state satisfying the invariant `Inv` (`WF`, not panicked, readable cursor, no pending promote/distribute
+  action, fresh id counter, `lb = false`, repairs on) EVERY public call — all 19: `Add`, `AddIfNotExist`,
+  `Upsert`, `Update`, `UpdateKey`, `Remove`, `Find`, `FindInDescendingOrder`, `FindWithID`, `First`, `Last`,
+  `Next`, `Previous`, `RemoveCurrentItem`, `UpdateCurrentItem/Key/Value`, `Range`, `RangeDesc` — leads to a state
+  satisfying `Inv` again and returns what the ordered multiset/map specification `Spec.accepts` allows.  Every
+  path of the code is covered: for `Add` the duplicate rejection, `addItemOnNodeWithNilChild`, `insertSlotItem`,
+  the root-leaf split, the split of a non-root leaf with `promote` cascading through any number of full
+  ancestors (ending in an ancestor with room or in a root split); for the removal the leaf shift, root
+  emptied, `unlink`, nil-child neighbour, successor copy-up, `promoteSingleChildAsParentChild`, root collapse;
+* `C17_add`, `C17_remove_current` — what `Add` and `RemoveCurrentItem` do to the contents (ordered insertion at
+  the key's lower bound, `Count + 1`; removal of exactly the cursor's item, `Count - 1`);
+* `C17_run`, `C17_run_from_new` — THE RUN: along ANY operation sequence from a state satisfying `Inv` (e.g. the
+  empty store) every visited state satisfies `Inv` and every call meets the specification;
+* `C17_refines_partial` — the older, weaker form (hypothesis: the checker accepts every visited state); it is the
+  only thing that applies with leaf load balancing ON, where the driver evaluates exactly this hypothesis and
+  `Spec.accepts` after every explored step;
+* `C17_lb_counterexample`, `C17_statement_false` — with leaf load balancing ON the statement is FALSE for the
+  code as it is (open finding C17-F1): `distributeToLeft/Right` (`unprovenRoutines`) break the order;
+* `C17_stale_cursor_counterexample` / `C17_stale_cursor_repaired` — the pinned tree's `Find` fast path trusts a
+  cursor whose cached item pointer sees a vacated slot; the proposed repair removes it.
 -/
 namespace Sop.C17
 open Sop.BTree
 set_option maxRecDepth 100000
 
-/-- Full-strength statement: every public call on a well-formed tree yields a well-formed tree whose
-    in-order contents and result are what the ordered multiset/map specification allows. -/
+/-- The statement as first written: every public call on a well-formed tree yields a well-formed tree whose
+    in-order contents and result are what the ordered multiset/map specification allows. FALSE as it stands
+    (`C17_statement_false`: leaf load balancing; also an unreadable cursor makes `Find` panic). -/
 def Statement_C17 : Prop :=
   ∀ (t : BTree) (op : Op), WF t → t.panicked = false →
     WF (t.step op).1 ∧ (t.step op).1.panicked = false ∧
       Spec.accepts t.unique t.abs op (t.step op).2 (t.step op).1.abs = true
+
+/-- The statement with its side conditions made explicit (`Inv`: load balancing off, repairs on, readable cursor,
+    no pending action, fresh ids). PROVED: `C17_inv`. -/
+def Statement_C17_inv : Prop :=
+  ∀ (t : BTree) (op : Op), Inv t →
+    Inv (t.step op).1 ∧ Spec.accepts t.unique t.abs op (t.step op).2 (t.step op).1.abs = true
 
 theorem checkWF_sound (t : BTree) (h : checkWF t = true) : WF t := Sop.BTree.checkWF_sound t h
 
@@ -46,16 +64,103 @@ theorem spec_erase_sorted (l : List Item) (x : Item) (h : Sorted l) : Sorted (l.
   erase_sorted l x h
 theorem spec_sorted_iff (l : List Item) : keysSorted l = true ↔ Sorted l := keysSorted_iff l
 
-/-- The update routines whose `WF`-preservation lemma is not proved: all of them. -/
-def unprovenRoutines : List String :=
-  ["addOnLeaf/insertSlotItem", "addOnLeaf/split", "promote", "distributeToLeft", "distributeToRight",
-   "addItemOnNodeWithNilChild", "fixVacatedSlot", "unlink", "removeItemOnNodeWithNilChild",
-   "promoteSingleChildAsParentChild", "UpdateCurrentItem/Key/Value"]
+/-- The update routines whose preservation lemma is NOT proved: only the leaf-load-balancing rotations, for which
+    the statement is false on the code as it is (C17-F1). -/
+def unprovenRoutines : List String := ["distributeToLeft", "distributeToRight"]
 
-/-- PARTIAL: if the verified checker accepts every state visited by `ops` from `t` (this is what the
-    driver evaluates after every step; it replaces the unproved preservation lemmas of
-    `unprovenRoutines`), then every visited state is well-formed, scans in key order over live items
-    only, and reports the right count. -/
+/-- THE FULL-STRENGTH STATEMENT (with its side conditions): every public call keeps the invariant and meets the
+    specification. -/
+theorem C17_inv : Statement_C17_inv := fun _ op h => step_inv h op
+
+/-- in particular: well-formed, not panicked, accepted -/
+theorem C17_step (t : BTree) (op : Op) (h : Inv t) :
+    WF (t.step op).1 ∧ (t.step op).1.panicked = false ∧
+      Spec.accepts t.unique t.abs op (t.step op).2 (t.step op).1.abs = true :=
+  ⟨(step_inv h op).1.wf, (step_inv h op).1.ok, (step_inv h op).2⟩
+
+/-- the nine read-only calls need only `WF`, a readable cursor and the two read-side repairs -/
+theorem C17_read_ops (t : BTree) (op : Op) (hro : isReadOp op = true) (hwf : WF t) (hp : t.panicked = false)
+    (hv : CursorValid t) (hix : t.cur.node = 0 ∨ 0 ≤ t.cur.idx) (hff : t.fixFast = true) (hfi : t.fixId = true) :
+    WF (t.step op).1 ∧ (t.step op).1.panicked = false ∧ (t.step op).1.abs = t.abs ∧
+      Spec.accepts t.unique t.abs op (t.step op).2 (t.step op).1.abs = true := by
+  obtain ⟨h1, h2, h3, _, h5⟩ := read_op_accepts hwf hp hv hix hff hfi op hro
+  exact ⟨h1, h2, h3, h5⟩
+
+/-- `Add` (every path): well-formed result, `Count + 1`, and the contents are the ORDERED INSERTION of the new item
+    at the lower bound of its key; in a unique store holding the key it is rejected and nothing changes -/
+theorem C17_add (t : BTree) (uniq : Bool) (key : Int) (val : Nat) (h : Inv t) :
+    Inv (t.addU uniq key val).1 ∧
+    (((uniq && hasKey t.abs key) = true ∧ (t.addU uniq key val).2 = false ∧ (t.addU uniq key val).1.abs = t.abs) ∨
+     ((uniq && hasKey t.abs key) = false ∧ (t.addU uniq key val).2 = true ∧
+        (t.addU uniq key val).1.count = t.count + 1 ∧
+        ∃ L R, t.abs = L ++ R ∧ (t.addU uniq key val).1.abs = L ++ (⟨t.nextId, key, val⟩ : Item) :: R ∧
+          (∀ x ∈ L, x.key < key) ∧ (∀ x ∈ R, key ≤ x.key))) := by
+  obtain ⟨h1, h2⟩ := inv_addU h uniq key val
+  refine ⟨h1, ?_⟩
+  rcases h2 with h2 | ⟨hc, hok⟩
+  · exact Or.inl h2
+  · exact Or.inr ⟨hc, hok.ret, hok.count, hok.abs⟩
+
+/-- `RemoveCurrentItem`, EVERY branch: nothing happens without a current item; otherwise the result is well-formed
+    (hence key-sorted), `Count` drops by one and the contents are the old ones minus the cursor's item -/
+theorem C17_remove_current (t : BTree) (h : Inv t) :
+    Inv t.removeCurrent.1 ∧
+    ((t.removeCurrent.2 = .ok false ∧ t.removeCurrent.1 = t) ∨
+     (t.removeCurrent.2 = .ok true ∧ t.removeCurrent.1.count = t.count - 1 ∧
+        ∃ L R, t.abs = L ++ t.curItem :: R ∧ (L ++ R).Perm t.removeCurrent.1.abs)) :=
+  inv_removeCurrent' h
+
+/-- with pairwise different item ids (true for every store built through the public calls: ids come from the
+    counter) the contents after `RemoveCurrentItem` are exactly the old ones with the cursor's item cut out -/
+theorem C17_remove_current_exact (t : BTree) (h : Inv t) {nd : Node} (hcn : t.curNode? = some nd)
+    (hids : (t.abs.map (·.id)).Nodup) :
+    ∃ L R, t.abs = L ++ t.curItem :: R ∧ t.removeCurrent.1.abs = L ++ R := by
+  have hc := cursorOn_of_curNode h.wf hcn (h.cur.idx hcn)
+  exact (Rem.removeCurrent_ok_exact t h.wf h.ok hc hids).2.2.2.2.2
+
+/-- THE RUN: along ANY operation sequence every visited state satisfies `Inv` (so it is well-formed, scans sorted,
+    has not panicked) and every call meets the specification. -/
+theorem C17_run (t : BTree) (ops : List Op) (h : Inv t) :
+    ∀ k, k ≤ ops.length →
+      Inv (t.run (ops.take k)) ∧ WF (t.run (ops.take k)) ∧ Sorted (t.run (ops.take k)).abs ∧
+      (∀ (hk : k < ops.length), Spec.accepts (t.run (ops.take k)).unique (t.run (ops.take k)).abs ops[k]
+        ((t.run (ops.take k)).step ops[k]).2 ((t.run (ops.take k)).step ops[k]).1.abs = true) := by
+  intro k hk
+  obtain ⟨h1, h2⟩ := run_inv ops t h k hk
+  exact ⟨h1, h1.wf, (abs_sorted_of_WF _ h1.wf).1, h2⟩
+
+theorem roundSlotLength_ok (req : Int) : 2 ≤ roundSlotLength req ∧ roundSlotLength req % 2 = 0 := by
+  unfold roundSlotLength
+  simp only
+  split <;> split <;> split <;> split <;> omega
+
+/-- the empty store satisfies the invariant (non-vacuity of `Inv`) -/
+theorem inv_new (req : Int) (unique : Bool) : Inv (BTree.new req unique false true) := by
+  have hsl := roundSlotLength_ok req
+  refine ⟨?_, rfl, ⟨Or.inl rfl, Or.inl rfl⟩, ⟨rfl, rfl⟩, ⟨Nat.one_pos, ?_⟩, ?_, rfl, rfl, rfl, rfl⟩
+  · unfold WF
+    exact ⟨hsl, by simp [BTree.new]⟩
+  · intro nd hnd; simp [BTree.new] at hnd
+  · intro x hx; simp [BTree.new, BTree.abs, absNode] at hx
+
+/-- the run theorem from the empty store: whatever is called, in whatever order, every state is well-formed,
+    nothing panics, and every answer is the specification's -/
+theorem C17_run_from_new (req : Int) (unique : Bool) (ops : List Op) :
+    ∀ k, k ≤ ops.length →
+      WF ((BTree.new req unique false true).run (ops.take k)) ∧
+      ((BTree.new req unique false true).run (ops.take k)).panicked = false ∧
+      (∀ (hk : k < ops.length),
+        Spec.accepts ((BTree.new req unique false true).run (ops.take k)).unique
+          ((BTree.new req unique false true).run (ops.take k)).abs ops[k]
+          (((BTree.new req unique false true).run (ops.take k)).step ops[k]).2
+          (((BTree.new req unique false true).run (ops.take k)).step ops[k]).1.abs = true) := by
+  intro k hk
+  obtain ⟨h1, _, _, h4⟩ := C17_run _ ops (inv_new req unique) k hk
+  exact ⟨h1.wf, h1.ok, h4⟩
+
+/-- PARTIAL (any configuration, incl. leaf load balancing ON): if the verified checker accepts every state visited
+    by `ops` from `t` (this is what the driver evaluates after every step), then every visited state is well-formed,
+    scans in key order over live items only, and reports the right count. -/
 theorem C17_refines_partial (t : BTree) (ops : List Op)
     (hexplored : ∀ k, k ≤ ops.length → checkWF (t.run (ops.take k)) = true) :
     ∀ k, k ≤ ops.length →
@@ -67,6 +172,17 @@ theorem C17_refines_partial (t : BTree) (ops : List Op)
   exact ⟨hw, C17_scan_sorted _ hw⟩
 
 /-! ### witnesses -/
+
+/-- a concrete run (root split, rejected duplicate, searches, update, removal, range; slot length 2, unique) -/
+def sampleRun : List Op :=
+  [.add 10 1, .add 20 2, .add 30 3, .add 20 9, .find 20 true, .update 20 5, .next, .remove 30, .range 0 100]
+
+theorem sampleRun_states : ((BTree.new 2 true false true).run sampleRun).abs.map (·.key) = [10, 20] ∧
+    ((BTree.new 2 true false true).run (sampleRun.take 3)).nodes.length = 3 := by decide +kernel
+
+/-- the run theorem applied to it: every visited state is well-formed -/
+theorem sampleRun_wf : ∀ k, k ≤ sampleRun.length → WF ((BTree.new 2 true false true).run (sampleRun.take k)) :=
+  fun k hk => (C17_run_from_new 2 true sampleRun k hk).1
 
 /-- slot length 2, unique, leaf load balancing on -/
 def lbWitness : List Op :=
